@@ -87,7 +87,8 @@ def compare(prog, case, real, spans, backend):
 
 
 def run_programs(programs, rep, backends=("vm",), limits=None, pool=None, family_of=None, spec_opts=None,
-                 prop_filter=None):
+                 prop_filter=None, vm_trace=None):
+    """vm_trace: predicate on a program; its VM run is recorded instruction by instruction and validated against HmsVM"""
     """Full pipeline.  Returns list of (prog, backend, verdict) for callers that need more."""
     cases = run_spec(programs, rep, **(spec_opts or {}))
     usable = []
@@ -109,6 +110,9 @@ def run_programs(programs, rep, backends=("vm",), limits=None, pool=None, family
         rendered[p["id"]] = (src, spans)
         for b in backends:
             a = {"modules": {"main": src}, "entry": "main", "backend": b, "timeout_ms": 8000}
+            if b == "vm" and vm_trace and vm_trace(p):
+                a["trace"] = True
+                a["trace_instr"] = True
             if limits:
                 a["limits"] = limits
             reqs.append({"op": "run", "id": len(reqs), "a": a})
@@ -133,6 +137,15 @@ def run_programs(programs, rep, backends=("vm",), limits=None, pool=None, family
                 feat["panic"] = panic_class(detail["stderr"])
             rep.fail(feat, {"program": src, "expected": {"status": c["status"], "info": c["info"]},
                             "detail": detail, "backend": b})
+    if vm_trace:
+        from . import vmtrace
+        traces, owners = [], []
+        for p, b, v, r in results:
+            if b == "vm" and "r" in r and r["r"].get("trace"):
+                traces.append(r["r"]["trace"])
+                owners.append({"id": p["id"], "program": rendered[p["id"]][0]})
+        if traces:
+            vmtrace.validate_all(traces, owners, rep, {"family": "vm-trace"})
     return results, cases, rendered
 
 
